@@ -10,6 +10,7 @@ from ref import sdo_ref_client as R
 from props import c02 as B
 
 PROP = "C06"
+ANCHORS = [('canopen.sdo.server', 'SdoServer'), ('canopen.node.local', 'LocalNode.get_data'), ('canopen.node.local', 'LocalNode.set_data'), ('canopen.node.local', 'LocalNode._find_object'), ('canopen.sdo.client', 'SdoClient.read_response'), ('canopen.sdo.exceptions', 'SdoAbortedError')]
 MODEL_VO = B.MODEL_VO
 COQ_IMPORTS = B.COQ_IMPORTS
 COQ_RUN = B.COQ_RUN
